@@ -1,6 +1,8 @@
 package checks
 
 import (
+	"strconv"
+	"sort"
 	"encoding/json"
 	"fmt"
 	"os"
@@ -100,7 +102,11 @@ func runSearch(c *core.Ctx, sp searchSpec) *sessmc.Explorer {
 			sessReplay{Variant: sp.variant, Cfg: v.Cfg, Names: v.Path, Rule: v.Rule, Probe: v.Probe, Trace: v.Trace})
 	}
 	if sp.conform > 0 {
-		collectConformance(x, sp, sp.conform)
+		n := sp.conform
+		if m, err := strconv.Atoi(os.Getenv("VERIF_CONFORM_MULT")); err == nil && m > 1 {
+			n *= m // (development aid: offer many more traces to the run-loop replay)
+		}
+		collectConformance(x, sp, n)
 	}
 	for _, p := range x.SamplePaths {
 		if c.NumSamples() < 8 {
@@ -129,6 +135,17 @@ func collectConformance(x *sessmc.Explorer, sp searchSpec, n int) {
 		return
 	}
 	step := len(x.Frontier)/n + 1
+	// the parallel search leaves the frontier in an order that varies from run to run: sort it, so that the same
+	// traces are offered every time
+	sort.Slice(x.Frontier, func(a, b int) bool {
+		p, q := x.Frontier[a], x.Frontier[b]
+		for i := 0; i < len(p) && i < len(q); i++ {
+			if p[i] != q[i] {
+				return p[i] < q[i]
+			}
+		}
+		return len(p) < len(q)
+	})
 	conformMu.Lock()
 	defer conformMu.Unlock()
 	for i := 0; i < len(x.Frontier); i += step {
